@@ -62,6 +62,7 @@ BOXES = [2000.0, 500.0, 1000.0, 1185.0, 7.5, 296.0, 123.456, 1.0]
 VELZ = [1.0, 31234.5, 45000.0, 1234.5678, 200000.0, 0.37]
 PPDS = [6912.0, 6912, 1728.0, 2304, 576.0, 64, 6300.0000001, 32767.0]
 NONE_NAMES = ['packedpid_A', 'packedpid_B', 'pid_A']
+OPT_IN_NONE_NAMES = {'rvint_A': 'rvint', 'rvint_B': 'rvint', 'pack9_A': 'pack9'}  # never generated; accepted in hand-written descriptors
 
 _stats = {'requests_checked': 0, 'reads': 0, 'columns_compared_with_reference': 0, 'columns_compared_bitwise': 0, 'error_cases_checked': 0, 'fixture_files_written': 0}
 
@@ -279,8 +280,12 @@ def _validate(d):
             raise Reject('unknown kind/variant/compression')
         if not (0 <= d['n'] <= 5000) or not (1 <= len(d['requests']) <= 70):
             raise Reject('sizes out of range')
-        if d['variant'] == 'none' and (d['kind'] not in ('packedpid', 'pid') or 'pid' not in d.get('rename', '') or d['rename'] in KINDS):
-            raise Reject('none-variant needs a pid-like non-standard name')
+        if d['variant'] == 'none':
+            # Generated: pid-like names only (NONE_NAMES).  Hand-written descriptors may also name an rvint/pack9 column
+            # with a cleaned_rvpid-style suffix (OPT_IN_NONE_NAMES) - see the candidate finding in sensitivity/C16.md.
+            ok = (d['kind'] in ('packedpid', 'pid') and d.get('rename') in NONE_NAMES) or OPT_IN_NONE_NAMES.get(d.get('rename')) == d['kind']
+            if not ok:
+                raise Reject('none-variant needs a non-standard column name matching its kind')
         if d['variant'] == 'ambiguous' and (d['other']['kind'] == d['kind'] or d['other']['kind'] not in KINDS):
             raise Reject('ambiguous variant needs a different second raw column')
         for p9 in [d['p9'] if d['kind'] == 'pack9' else None, d['other']['p9'] if d['variant'] == 'ambiguous' and d['other']['kind'] == 'pack9' else None]:
@@ -425,7 +430,10 @@ def _check_column(name, got, ref, n, dtype, what):
 def _call(fn, r, colname, load):
     from abacusnbody.data.read_abacus import read_asdf
 
-    kw = dict(dtype=np.dtype(r['dtype']).type, verbose=bool(r['verbose']))
+    # dtype is passed as the scalar type class (np.float32 / np.float64), which is what the default and the repository's
+    # own callers use; 'dtype_as': 'instance' (np.dtype('f8')) is accepted in hand-written descriptors only.
+    dt = np.dtype(r['dtype'])
+    kw = dict(dtype=dt if r.get('dtype_as') == 'instance' else dt.type, verbose=bool(r['verbose']))
     if load is not None:
         kw['load'] = list(load) if r.get('load_as', 'list') == 'list' else tuple(load)
     if colname is not None:
@@ -553,7 +561,12 @@ def run_case(d):
                     continue
                 raise Violation('read-asdf-ambiguity-not-reported', '%s: no error although the file has %s of the known raw columns; got columns %r' % (
                     what, 'several' if d['variant'] == 'ambiguous' else 'none', list(t.colnames)))
-            t = call_repo(_call, fn, r, explicit, r['load'], _sig='raised:read_asdf')
+            sig = 'raised:read_asdf'
+            if d['variant'] == 'none' and d.get('rename') in OPT_IN_NONE_NAMES:
+                sig = 'read-asdf-named-column-unsupported'  # opt-in descriptors only (candidate finding)
+            elif r.get('dtype_as') == 'instance':
+                sig = 'read-asdf-dtype-instance'  # opt-in descriptors only (observation)
+            t = call_repo(_call, fn, r, explicit, r['load'], _sig=sig)
             flags = None
             if r['lp'] is None and r['lv'] is None:
                 expect = list(r['load']) if r['load'] is not None else (['pos', 'vel'] if tk in ('rvint', 'pack9') else ['pid'])
